@@ -1293,6 +1293,7 @@ ASSUMPTIONS = [
     "L1: iterating the verified exact step of _multiply from (a,0,b) until a == 0 yields a*b mod p (checked by CBMC end-to-end only for p <= 31)",
     "L2: Z_p is a field for prime p; the smallest non-unit of a composite c divides c (termination of the table loops / refusal of composites; checked end-to-end for c <= 16)",
     "const-reference parameters are extracted as by-value copies (no aliasing between reference parameters)",
+    "GMP (assumed contracts on a dependency, contracts/c10_gmp_glue.h): mpz_mod / operator% / operator/ / operator* / mpz_gcd / mpz_invert are uninterpreted functions whose documented ranges are assumed; mpz_class arithmetic is machine arithmetic on 64 bits under operand bounds whose sufficiency is discharged by the overflow checks (|operands of sums| < 2^60, |operands of products| < 2^31, P < 2^31) - arbitrary-precision values beyond these bounds are not covered",
 ]
 
 
